@@ -451,8 +451,8 @@ theorem unknown_alias_lemma (nodes : List Str) (aliases : List (Str × Str)) (h 
     have := List.find?_some hf
     simpa using this
 
-theorem kwargs_passthrough_lemma (kw : List KwArg) (k : Str) :
-    (KwArg.other k ∈ drawKwargs kw ↔ KwArg.other k ∈ kw) ∧ KwArg.spacing ∉ drawKwargs kw ∧ KwArg.aliases ∉ drawKwargs kw ∧
+theorem kwargs_passthrough_lemma (kw : List KwArg) (k v : Str) :
+    (KwArg.other k v ∈ drawKwargs kw ↔ KwArg.other k v ∈ kw) ∧ KwArg.spacing ∉ drawKwargs kw ∧ KwArg.aliases ∉ drawKwargs kw ∧
     (KwArg.spacing ∈ kw → KwArg.pos ∈ drawKwargs kw) ∧ (KwArg.aliases ∈ kw → KwArg.labels ∈ drawKwargs kw) := by
   unfold drawKwargs
   by_cases h1 : KwArg.spacing ∈ kw <;> by_cases h2 : KwArg.aliases ∈ kw <;>
